@@ -119,6 +119,37 @@ def _write_job(a):
     return base, _rss(), os.path.getsize(path)
 
 
+def _link_job(a):
+    """a member flagged as a symbolic link whose 'target' is a very large, highly compressible stream"""
+    path, size, how = a
+    import random
+    import py7zr
+    import refwriter
+    import checks.c06 as c06
+    members = [{"name": "before.txt", "kind": "file", "data": b"small before", "attr": c06.FILE_ATTR},
+               {"name": "ln", "kind": "symlink", "data": bytes(size), "attr": c06.LINK_ATTR}]
+    for m in members:
+        m.update({"mtime": 130000000000000000, "ctime": None, "atime": None})
+    lay = {"folders": [("deflate", [0, 1])], "crc_place": "sub", "nums_omitted": False, "packcrc": False, "packpos": 0, "dummy": 0,
+           "emptyfile_vector": True, "header": "raw", "password": None, "nonminimal": False}
+    with open(path, "wb") as f:
+        f.write(refwriter.build(members, lay, random.Random(1)))
+    del members
+    base = _rss()
+    raised = None
+    out = path + ".out"
+    try:
+        with py7zr.SevenZipFile(path, "r") as z:
+            if how == "testzip":
+                z.testzip()
+            else:
+                z.extractall(out)
+    except Exception as e:  # noqa
+        raised = type(e).__name__
+    shutil.rmtree(out, ignore_errors=True)
+    return base, _rss(), raised
+
+
 def _extract_job(a):
     path, password, how = a
     import py7zr
@@ -229,6 +260,22 @@ def run(ctx):
             if peak - base > BUDGET_MIB:
                 ctx.fail("C20:extract_rss:" + nm.split("-")[0] + ":" + tex, "extracting one %d MiB %s member (%s) through %s peaked %d MiB above the interpreter baseline" % (size_x >> 20, tex, how, nm, peak - base),
                          {"chain": nm, "texture": tex, "size": size, "how": how, "peak_mib": peak, "base_mib": base})
+        # a link member's "target" is read whole before the link is made: however large the archive says it is, the
+        # budget holds (a real target is a path: a few thousand bytes at most)
+        lsize = 1 << 30
+        for how, (st, val) in zip(("path", "testzip"), sandbox.pmap(_link_job, [(os.path.join(tmp, "ln_%s.7z" % h), lsize, h) for h in ("path", "testzip")],
+                                                                  workers=2, timeout=600, mem=None)):
+            conf = {"member": "symbolic link whose stored target is %d MiB of zeros (Deflate, reference writer)" % (lsize >> 20), "how": how}
+            ctx.case(key=("link-target", lsize, how), nontrivial=True, sample=conf)
+            if st != "ok":
+                ctx.fail("C20:extract_failed:link", "extracting a link member with a %d-byte target did not complete: %s %s" % (lsize, st, str(val)[:200]), conf)
+                continue
+            base, peak, raised = val
+            ctx.count("extract_peak_above_base_mib", "link-target/" + how, peak - base)
+            ctx.count("link-target-outcome", "%s/%s" % (how, raised or "returned"))
+            if peak - base > BUDGET_MIB:
+                ctx.fail("C20:extract_rss:link", "a link member whose stored target is %d MiB (%s) peaked %d MiB above the interpreter baseline" % (lsize >> 20, how, peak - base),
+                         dict(conf, peak_mib=peak, base_mib=base, outcome=raised))
     finally:
         shutil.rmtree(tmp, ignore_errors=True)
 
